@@ -31,9 +31,11 @@ func CallerGroups(md metautils.NiceMD) []string {
 func TemporaryEvaluate(md metautils.NiceMD) error {
 	adminGroups := os.Getenv("ADMINGROUPS")
 	groups := CallerGroups(md)
-	// A request that carries no identity metadata at all was not authenticated (security is off):
-	// there is no caller to evaluate.
-	if md.Get("preferred_username") == "" && md.Get("name") == "" && md.Get("email") == "" && len(groups) == 0 {
+	// A request that carries no identity metadata at all was not authenticated (security is off, or the
+	// client is allowed to come without a token): there is no caller to evaluate. With security on, a
+	// request that carries a bearer token was authenticated, whatever claims the token has.
+	authenticated := os.Getenv("OIDC_SERVER_URL") != "" && md.Get("authorization") != ""
+	if !authenticated && md.Get("preferred_username") == "" && md.Get("name") == "" && md.Get("email") == "" && len(groups) == 0 {
 		return nil
 	}
 	admins := strings.FieldsFunc(adminGroups, func(r rune) bool { return r == ',' || r == ';' || r == ' ' })
